@@ -609,16 +609,15 @@ func (s *IndexedState) Get(ctx *Context, id string) (Map, error) {
 }
 
 func (s *IndexedState) get(ctx *Context, id string, getLock bool) (Map, error) {
-	// Assumes we have a read lock!
 	Log(DEBUG, ctx, "IndexedState.get", "name", s.Name, "id", id)
 
+	// A get purges the fact when it finds it expired, so it needs the
+	// write lock, and it needs it until that is done.
 	if getLock {
-		s.slock(ctx, true)
+		s.slock(ctx, false)
+		defer s.sunlock(ctx, false)
 	}
 	fact, found := s.IdToFact[id]
-	if getLock {
-		s.sunlock(ctx, true)
-	}
 
 	if !found {
 		return nil, NewNotFoundError("%s", id)
@@ -682,9 +681,10 @@ func (s *IndexedState) Search(ctx *Context, pattern Map) (*SearchResults, error)
 	timer := NewTimer(ctx, "IndexedState.Search")
 	defer timer.Stop()
 
-	s.slock(ctx, true)
+	// Not a read lock: a search purges the expired facts it comes across.
+	s.slock(ctx, false)
 	srs, err := s.search(ctx, pattern)
-	s.sunlock(ctx, true)
+	s.sunlock(ctx, false)
 
 	return srs, err
 }
@@ -764,13 +764,14 @@ func (s *IndexedState) FindRules(ctx *Context, event Map) (map[string]Map, error
 }
 
 func (s *IndexedState) doFindRules(ctx *Context, event Map) (map[string]Map, error) {
-	s.slock(ctx, true)
-	defer s.sunlock(ctx, true)
+	// Not a read lock: findRules purges the expired rules it comes across.
+	s.slock(ctx, false)
+	defer s.sunlock(ctx, false)
 	return s.findRules(ctx, event)
 }
 
-// findRules does the work for doFindRules.  Assumes we have (at
-// least) a read lock.
+// findRules does the work for doFindRules.  Assumes we have the
+// (write) lock.
 func (s *IndexedState) findRules(ctx *Context, event Map) (map[string]Map, error) {
 	acc := make(map[string]Map)
 	ss, err := s.RuleIndex.SearchPatternsMap(ctx, map[string]interface{}(event))
@@ -828,9 +829,10 @@ func (s *IndexedState) FindCachedRules(ctx *Context, event Map) (map[string]*Rul
 	// Keep the read lock until the cache has been consulted (and
 	// perhaps filled).  Otherwise a concurrent Add of the same id
 	// could slip in between, and we'd cache a rule parsed from a
-	// body that has already been replaced.
-	s.slock(ctx, true)
-	defer s.sunlock(ctx, true)
+	// body that has already been replaced.  (Not a read lock:
+	// findRules purges the expired rules it comes across.)
+	s.slock(ctx, false)
+	defer s.sunlock(ctx, false)
 
 	rules, err := s.findRules(ctx, event)
 	if err != nil {
